@@ -16,3 +16,10 @@ open GoSQLXModel
 #print axioms Props.C04.tokens_in_source_order
 #print axioms Props.C04.operator_maximal_munch
 #print axioms Props.C04.triple_quote_counterexample
+#print axioms Lex.tokenize_spell
+#print axioms Lex.tokenize_layout_independent
+#print axioms Lex.lexLoop_spell
+#print axioms Props.C04.go_class_ascii_ok
+#print axioms Props.C04.gen_punct_ok
+#print axioms Props.C04.reference_lexemes_are_the_tokens
+#print axioms Props.C04.layout_independent
